@@ -264,3 +264,16 @@ func ClearFired() {
 		k.opsCnt[i] = 0
 	}
 }
+
+// SetPathFaults installs path-addressed faults (replacing any).
+//
+//go:norace
+func SetPathFaults(pf []PathFault) {
+	k.pathFaults = make([]PathFault, len(pf)+1)
+	for i := range pf {
+		k.pathFaults[i] = pf[i]
+		k.pathFaults[i].Path = clean(pf[i].Path)
+		k.pathFaults[i].seen = 0
+	}
+	k.npathFaults = len(pf)
+}
